@@ -110,6 +110,19 @@ pub fn check(case: &C16Case, st: &mut Stats) -> Verdict {
     fill(&case.salts);
     let t2 = must_ok("mock:issue(second run)", sut::issue_with(&mut issuer2, spec))?;
     let p2 = split(&t2, spec.fmt).map_err(|e| Failure::new("mock:unparseable", e))?;
+    // … and once more on that same instance, right after a successful issuance
+    fill(&case.salts);
+    let t3 = must_ok("mock:issue(third run, same issuer instance)", sut::issue_with(&mut issuer2, spec))?;
+    let p3 = split(&t3, spec.fmt).map_err(|e| Failure::new("mock:unparseable", e))?;
+    if !spec.decoys && p3.disclosures != p1.disclosures {
+        return Err(Failure::new(
+            "mock:not-reproducible",
+            format!("a third issuance on the same issuer instance (equal claims, strategy and salts) gave different disclosures\n  run 1: {:?}\n  run 3: {:?}", p1.disclosures, p3.disclosures),
+        ));
+    }
+    if remaining() != case.salts[n..] {
+        return Err(Failure::new("mock:queue", format!("third issuance on the same instance: queue after issuing is {:?}, expected {:?}", remaining(), &case.salts[n..])));
+    }
     // decoy digests stay random in this mode and also occur inside disclosed objects: the
     // byte-identity clause is stated for decoys off only
     if !spec.decoys && p1.disclosures != p2.disclosures {
